@@ -10,6 +10,9 @@ import Mahotas.Proofs.C06Axis
 import Mahotas.Proofs.C06Gauss
 import Mahotas.Proofs.C06Const
 import Mahotas.Proofs.C06Transpose
+import Mahotas.Proofs.C06Cast
+import Mathlib.Data.Rat.Floor
+import Mahotas.Proofs.C06Edge
 import Mahotas.Proofs.C06Separable
 import Mahotas.Proofs.Modes
 open Mahotas Mahotas.C06
@@ -617,3 +620,234 @@ theorem C06_mode_codes_agree (m : Mahotas.Mode) :
 
 /-- non-vacuity: `reflect` is mode 2 in both tables -/
 example : Mahotas.Generated.pyModes.lookup (Mahotas.Mode.reflect).name = some 2 := by decide
+
+/-! ## Round 4: the C cast of the accumulator; `edge.sobel` / `edge.dog` / `laplacian_2D` as compositions -/
+
+/-- **C06-T6 (the cast to `f`'s dtype: truncation toward zero, on its domain).** `castIntG floor ceil 0 lo hi1` is the
+definition the driver runs (at `Float`, with `Float.floor` / `Float.ceil`, for the eight integer dtypes: `dtBounds`) to
+decide WHICH cells are compared with the real code and what value is expected there. Over any ordered field with a
+floor function, for every integer range `[lo, hi1)` and every accumulator `x`:
+(i) the cast is defined exactly when the truncation `truncZ x` (`⌈x⌉` for `x < 0`, `⌊x⌋` otherwise) is in range, and then
+its value is that integer — otherwise `none`: the C++ standard leaves the conversion undefined and the check skips the
+cell;
+(ii) truncation is toward zero: for `x ≥ 0`, `0 ≤ t ≤ x < t + 1`; for `x < 0`, `t − 1 < x ≤ t ≤ 0` — so a negative
+accumulator above `−1` becomes `0` and is DEFINED for unsigned dtypes;
+(iii) an integer-valued accumulator inside the range is stored unchanged. -/
+theorem C06_cast_in_range {α : Type} [Field α] [LinearOrder α] [IsStrictOrderedRing α] [FloorRing α]
+    (lo hi1 : ℤ) (x : α) :
+    (castIntG (floorA (α := α)) ceilA 0 (lo : α) (hi1 : α) x =
+      if lo ≤ truncZ x ∧ truncZ x < hi1 then some ((truncZ x : ℤ) : α) else none) ∧
+    (0 ≤ x → 0 ≤ truncZ x ∧ ((truncZ x : ℤ) : α) ≤ x ∧ x < (truncZ x : α) + 1) ∧
+    (x < 0 → truncZ x ≤ 0 ∧ x ≤ ((truncZ x : ℤ) : α) ∧ (truncZ x : α) - 1 < x) ∧
+    (∀ n : ℤ, lo ≤ n → n < hi1 →
+      castIntG (floorA (α := α)) ceilA 0 (lo : α) (hi1 : α) ((n : ℤ) : α) = some ((n : ℤ) : α)) := by
+  refine ⟨castIntG_eq lo hi1 x, truncZ_nonneg x, truncZ_neg x, fun n h1 h2 => ?_⟩
+  rw [castIntG_eq, truncZ_of_int, if_pos ⟨h1, h2⟩]
+
+/-- **C06-T6a (the `Float` run is that definition).** For each of the eight integer dtype names the driver's `castTo`
+is `truncG Float.floor Float.ceil 0`, and wherever `castDefined` says the conversion is defined the value the driver
+prints is the value of `castIntG Float.floor Float.ceil 0 lo hi1` with `(lo, hi1) = dtBounds dt` (`hi1 = max + 1`, a power
+of two, exactly representable). `f64`, `f32` and `b1` have no bounds: their conversions are defined for every double. -/
+theorem C06_cast_float_tie (dt : String) (x lo hi1 : Float) (hb : dtBounds dt = some (lo, hi1)) :
+    castTo dt x = truncG Float.floor Float.ceil 0 x ∧
+    (castDefined dt x = true → castIntG Float.floor Float.ceil 0 lo hi1 x = some (castTo dt x)) ∧
+    dtBounds "f64" = none ∧ dtBounds "f32" = none ∧ dtBounds "b1" = none :=
+  ⟨castTo_int dt x (by rw [hb]; rfl), castDefined_some dt x lo hi1 hb, rfl, rfl, rfl⟩
+
+/-- non-vacuity over ℚ: `−1/2 ↦ 0` is defined for `uint8`, `−3/2` and `256` are not, `511/2 ↦ 255`, and `int8` keeps `−128` -/
+example :
+    castIntG (floorA (α := ℚ)) ceilA 0 ((0 : ℤ) : ℚ) ((256 : ℤ) : ℚ) (-1 / 2) = some 0 ∧
+    castIntG (floorA (α := ℚ)) ceilA 0 ((0 : ℤ) : ℚ) ((256 : ℤ) : ℚ) (-3 / 2) = none ∧
+    castIntG (floorA (α := ℚ)) ceilA 0 ((0 : ℤ) : ℚ) ((256 : ℤ) : ℚ) 256 = none ∧
+    castIntG (floorA (α := ℚ)) ceilA 0 ((0 : ℤ) : ℚ) ((256 : ℤ) : ℚ) (511 / 2) = some 255 ∧
+    castIntG (floorA (α := ℚ)) ceilA 0 ((-128 : ℤ) : ℚ) ((128 : ℤ) : ℚ) (-128) = some (-128) := by
+  simp only [castIntG_eq, truncZ]
+  norm_num [Int.floor_eq_iff, Int.ceil_eq_iff]
+
+/-- **C06 (`edge.sobel`: the tables and the calls, regenerated from `edge.py`).** Both filters are 3×3 with divisor 8; the
+numerators of each sum to 0; the vertical filter weighs the rows `(−1, 0, +1)` by `(1, 2, 1)` and the horizontal one the
+columns; `sobel` convolves with each of them once, in `nearest` mode. -/
+theorem C06_sobel_tables :
+    Generated.vsobelShape = [3, 3] ∧ Generated.hsobelShape = [3, 3] ∧
+    Generated.vsobelDiv = 8 ∧ Generated.hsobelDiv = 8 ∧
+    Generated.vsobelNum = [-1, -2, -1, 0, 0, 0, 1, 2, 1] ∧ Generated.hsobelNum = [-1, 0, 1, -2, 0, 2, -1, 0, 1] ∧
+    Generated.vsobelNum.sum = 0 ∧ Generated.hsobelNum.sum = 0 ∧
+    Generated.sobelCalls = [("_hsobel_filter", "nearest"), ("_vsobel_filter", "nearest")] := by
+  decide
+
+/-- **C06 (`sobel` on constants and ramps, exact arithmetic).** Over any field in which `8 ≠ 0`, for a 2-D image `f` of
+shape `N0 × N1` and the generic kernel with the Sobel weights of `edge.py` in `nearest` mode (`sobelLinearG` is the list
+of these accumulators over all pixels):
+(i) on a constant image both responses are 0 at every pixel, border included;
+(ii) on an affine image `f[y, x] = a·y + b·x + c` the vertical response is exactly the slope `a` along axis 0 and the
+horizontal response exactly the slope `b` along axis 1 at every interior pixel (`1 ≤ y ≤ N0 − 2`, `1 ≤ x ≤ N1 − 2`):
+the divisor 8 normalises the kernels to unit gain, and the orientation is "+ towards increasing index" (the kernel is
+applied as a correlation, `f[p + j − c]`). So `sobel(just_filter=True)` of such a ramp is `a² + b²` in the interior. -/
+theorem C06_sobel_constant_and_ramp {K : Type} [Field K] (h8 : (8 : K) ≠ 0) (isZero : K → Bool)
+    (hz : ∀ x, isZero x = true → x = 0) (f : Img K) (N0 N1 : Nat) (hf : f.shape = [N0, N1]) :
+    (∀ c, (∀ q, inside f.shape q = true → f.getD q 0 = c) → ∀ p, inside f.shape p = true →
+      convAcc .nearest f (support isZero Generated.vsobelShape
+        (sobelWeightsG (Int.cast : Int → K) Generated.vsobelNum Generated.vsobelDiv)) p = 0 ∧
+      convAcc .nearest f (support isZero Generated.hsobelShape
+        (sobelWeightsG (Int.cast : Int → K) Generated.hsobelNum Generated.hsobelDiv)) p = 0) ∧
+    (∀ a b c : K, (∀ y x : Int, 0 ≤ y → y < N0 → 0 ≤ x → x < N1 → f.getD [y, x] 0 = a * (y : K) + b * (x : K) + c) →
+      ∀ y x : Int, 1 ≤ y → y + 1 < N0 → 1 ≤ x → x + 1 < N1 →
+      convAcc .nearest f (support isZero Generated.vsobelShape
+        (sobelWeightsG (Int.cast : Int → K) Generated.vsobelNum Generated.vsobelDiv)) [y, x] = a ∧
+      convAcc .nearest f (support isZero Generated.hsobelShape
+        (sobelWeightsG (Int.cast : Int → K) Generated.hsobelNum Generated.hsobelDiv)) [y, x] = b) := by
+  have hv : sobelWeightsG (Int.cast : Int → K) Generated.vsobelNum Generated.vsobelDiv =
+      #[(-1 : K) / 8, -2 / 8, -1 / 8, 0 / 8, 0 / 8, 0 / 8, 1 / 8, 2 / 8, 1 / 8] := by
+    simp [sobelWeightsG, Generated.vsobelNum, Generated.vsobelDiv]
+  have hh : sobelWeightsG (Int.cast : Int → K) Generated.hsobelNum Generated.hsobelDiv =
+      #[(-1 : K) / 8, 0 / 8, 1 / 8, -2 / 8, 0 / 8, 2 / 8, -1 / 8, 0 / 8, 1 / 8] := by
+    simp [sobelWeightsG, Generated.hsobelNum, Generated.hsobelDiv]
+  have hshape : Generated.vsobelShape = [3, 3] ∧ Generated.hsobelShape = [3, 3] := ⟨rfl, rfl⟩
+  rw [hv, hh, hshape.1, hshape.2]
+  refine ⟨fun c hc p hp => ?_, fun a b c hf' y x hy0 hy1 hx0 hx1 => ?_⟩
+  · have hs := inside_dims_pos _ _ hp
+    have hl : p.length = f.shape.length := inside_length _ _ hp
+    rw [C06_convolve_eq_spec isZero hz .nearest f hs, C06_convolve_eq_spec isZero hz .nearest f hs,
+      convSpec_const .nearest ⟨by decide, by decide⟩ f c hc hs [3, 3] _ p hl (by rw [hf]; rfl),
+      convSpec_const .nearest ⟨by decide, by decide⟩ f c hc hs [3, 3] _ p hl (by rw [hf]; rfl)]
+    have h9 : List.range (shapeSize [3, 3]) = [0, 1, 2, 3, 4, 5, 6, 7, 8] := by decide
+    rw [h9]
+    constructor <;> (simp [Array.getD]; ring_nf; simp)
+  · have hs : ∀ d ∈ f.shape, 0 < d := by
+      rw [hf]; intro d hd
+      simp only [List.mem_cons, List.not_mem_nil, or_false] at hd
+      rcases hd with rfl | rfl <;> omega
+    rw [C06_convolve_eq_spec isZero hz .nearest f hs, C06_convolve_eq_spec isZero hz .nearest f hs,
+      convSpec33_interior f N0 N1 hf _ y x ⟨hy0, hy1⟩ ⟨hx0, hx1⟩,
+      convSpec33_interior f N0 N1 hf _ y x ⟨hy0, hy1⟩ ⟨hx0, hx1⟩]
+    rw [hf' (y - 1) (x - 1) (by omega) (by omega) (by omega) (by omega),
+      hf' (y - 1) x (by omega) (by omega) (by omega) (by omega),
+      hf' (y - 1) (x + 1) (by omega) (by omega) (by omega) (by omega),
+      hf' y (x - 1) (by omega) (by omega) (by omega) (by omega),
+      hf' y x (by omega) (by omega) (by omega) (by omega),
+      hf' y (x + 1) (by omega) (by omega) (by omega) (by omega),
+      hf' (y + 1) (x - 1) (by omega) (by omega) (by omega) (by omega),
+      hf' (y + 1) x (by omega) (by omega) (by omega) (by omega),
+      hf' (y + 1) (x + 1) (by omega) (by omega) (by omega) (by omega)]
+    simp only [Array.getD, List.size_toArray, List.length_cons, List.length_nil]
+    constructor <;> (simp; field_simp; ring)
+
+/-- non-vacuity of the Sobel theorem over ℚ: the ramp `f[y, x] = 2y + x` on 3×4 — interior pixels `(1,1)`, `(1,2)` get
+exactly `(2, 1)` (border pixels do not: the `nearest` extension flattens the ramp), `just_filter` output `2² + 1² = 5`
+there; a constant image gives 0 everywhere; the hypotheses of the theorem hold for this image. -/
+example :
+    sobelLinearG (fun x => x == 0) (Int.cast : Int → ℚ) (⟨[3, 4], #[0, 1, 2, 3, 2, 3, 4, 5, 4, 5, 6, 7]⟩ : Img ℚ) =
+      ([1, 1, 1, 1, 2, 2, 2, 2, 1, 1, 1, 1], [1 / 2, 1, 1, 1 / 2, 1 / 2, 1, 1, 1 / 2, 1 / 2, 1, 1, 1 / 2]) ∧
+    sobelFilteredG (fun x => x == 0) (Int.cast : Int → ℚ) (⟨[3, 4], #[0, 1, 2, 3, 2, 3, 4, 5, 4, 5, 6, 7]⟩ : Img ℚ) =
+      [5 / 4, 2, 2, 5 / 4, 17 / 4, 5, 5, 17 / 4, 5 / 4, 2, 2, 5 / 4] ∧
+    sobelLinearG (fun x => x == 0) (Int.cast : Int → ℚ) (⟨[2, 2], #[5, 5, 5, 5]⟩ : Img ℚ) = ([0, 0, 0, 0], [0, 0, 0, 0]) := by
+  decide +kernel
+example : convAcc .nearest (⟨[3, 4], #[0, 1, 2, 3, 2, 3, 4, 5, 4, 5, 6, 7]⟩ : Img ℚ)
+    (support (fun x => x == 0) Generated.vsobelShape
+      (sobelWeightsG (Int.cast : Int → ℚ) Generated.vsobelNum Generated.vsobelDiv)) [1, 2] = 2 :=
+  ((C06_sobel_constant_and_ramp (K := ℚ) (by norm_num) (fun x => x == 0) (fun x h => by simpa using h)
+    ⟨[3, 4], #[0, 1, 2, 3, 2, 3, 4, 5, 4, 5, 6, 7]⟩ 3 4 rfl).2 2 1 0
+    (by
+      intro y x hy0 hy1 hx0 hx1
+      have hy : y = 0 ∨ y = 1 ∨ y = 2 := by omega
+      have hx : x = 0 ∨ x = 1 ∨ x = 2 ∨ x = 3 := by omega
+      rcases hy with rfl | rfl | rfl <;> rcases hx with rfl | rfl | rfl | rfl <;> decide +kernel)
+    1 2 (by decide) (by decide) (by decide) (by decide)).1
+
+/-- **C06 (`edge.dog` and `laplacian_2D` on constants, exact arithmetic).** `dogG` is `G2 − G1` element by element with
+`G_i = gaussian_filter(img, σ_i, mode='nearest')` (definitional). On a constant image of any rank, for ANY two families of
+order-0 Gaussian weights (any two `σ`, truncation radii and even positive sampled functions per axis), both smoothed images
+equal the constant at every pixel, so their difference — the DoG response before the zero-crossing search — is 0
+everywhere; no zero crossing can be reported on a flat image. (In `Float` the two smoothings differ by round-off of
+order 1e-16·|c|; the correspondence run compares `dog(just_filter=True)` with the model within 1e-11.) -/
+theorem C06_dog_constant {K : Type} [Field K] [LinearOrder K] [IsStrictOrderedRing K]
+    (isZero : K → Bool) (hz : ∀ x, isZero x = true → x = 0) (f : Img K) (c : K)
+    (hc : ∀ q, inside f.shape q = true → f.getD q 0 = c)
+    (e1 e2 : Nat → K → K) (s1 s2 : Nat → K) (lw1 lw2 : Nat → Nat)
+    (he1 : ∀ ax x, e1 ax (-x) = e1 ax x) (hp1 : ∀ ax x, 0 < e1 ax x)
+    (he2 : ∀ ax x, e2 ax (-x) = e2 ax x) (hp2 : ∀ ax x, 0 < e2 ax x) :
+    (∀ w1 w2 : Nat → Array K, dogG isZero f w1 w2 =
+      List.zipWith (fun g2 g1 => g2 - g1) (gaussianFilterG id isZero .nearest f w2).data.toList
+        (gaussianFilterG id isZero .nearest f w1).data.toList) ∧
+    ∀ q, inside f.shape q = true →
+      (gaussianFilterG id isZero .nearest f fun ax => gaussWeightsG (Nat.cast : Nat → K) (e2 ax) (s2 ax) (lw2 ax) 0).getD q 0 -
+      (gaussianFilterG id isZero .nearest f fun ax => gaussWeightsG (Nat.cast : Nat → K) (e1 ax) (s1 ax) (lw1 ax) 0).getD q 0
+        = 0 := by
+  refine ⟨fun _ _ => rfl, fun q hq => ?_⟩
+  have h := (C06_gaussian_filter_constant isZero hz .nearest ⟨by decide, by decide⟩ f c hc).2
+  rw [((h e2 s2 lw2 (fun _ => 0) he2 hp2 q hq).1 (fun _ _ => rfl)),
+    ((h e1 s1 lw1 (fun _ => 0) he1 hp1 q hq).1 (fun _ _ => rfl)), sub_self]
+
+/-- **C06 (`gaussian_filter` with scalar / sequence `sigma` and `order`).** `normalizeSeq` is `_normalize_sequence`: a scalar
+stands for the same value on every axis, a sequence (list or tuple) must have exactly one entry per axis and is then used as
+it is, any other length is the `ValueError`. Hence `gaussianFilterPy` — `gaussian_filter` from its Python arguments —
+is the fold of `C06_gaussian_filter_is_fold` with the weights `gaussWeights sigmas[axis] orders[axis]` on axis `axis`
+(per-axis sigmas AND per-axis orders), it raises exactly when one of the two sequences has the wrong length, and with two
+scalars every axis uses the same weights `gaussWeights sigma order`. -/
+theorem C06_gaussian_filter_tuple (dt : String) (m : Mode) (f : Img Float) :
+    (∀ {α : Type} (ndim : Nat) (v : α), normalizeSeq ndim (.scalar v) = some (List.replicate ndim v)) ∧
+    (∀ {α : Type} (ndim : Nat) (vs : List α), normalizeSeq ndim (.seq vs) = if vs.length = ndim then some vs else none) ∧
+    (∀ (ss : List Float) (os : List Nat), ss.length = f.shape.length → os.length = f.shape.length →
+      gaussianFilterPy dt m f (.seq ss) (.seq os) = some (gaussianFilterModel dt m f true ss os) ∧
+      gaussianFilterModel dt m f true ss os =
+        ((List.range f.shape.length).foldl (fun cur ax => gaussianPass (castTo dt) fIsZero m cur ax
+          ((gaussWeights (ss.getD ax 1.0) (os.getD ax 0)).map (castTo dt))) f).data.toList) ∧
+    (∀ (ss : List Float) (os : List Nat), ss.length ≠ f.shape.length ∨ os.length ≠ f.shape.length →
+      gaussianFilterPy dt m f (.seq ss) (.seq os) = none) ∧
+    (∀ (sigma : Float) (order : Nat),
+      gaussianFilterPy dt m f (.scalar sigma) (.scalar order) =
+        some (gaussianFilterModel dt m f true (List.replicate f.shape.length sigma) (List.replicate f.shape.length order)) ∧
+      ∀ ax, ax < f.shape.length → (List.replicate f.shape.length sigma).getD ax 1.0 = sigma ∧
+        (List.replicate f.shape.length order).getD ax 0 = order) := by
+  refine ⟨fun _ _ => rfl, fun _ _ => rfl, fun ss os hs ho => ⟨?_, rfl⟩, fun ss os h => ?_, fun sigma order => ⟨rfl, fun ax hax => ?_⟩⟩
+  · simp only [gaussianFilterPy, normalizeSeq, hs, ho, if_true]
+  · simp only [gaussianFilterPy, normalizeSeq]
+    rcases h with h | h
+    · by_cases ho : os.length = f.shape.length <;> simp [h, ho]
+    · simp [h]
+  · simp [List.getD_eq_getElem?_getD, hax]
+
+/-- non-vacuity: the three argument forms on a rank-2 array -/
+example : normalizeSeq 2 (.scalar (3 : Nat)) = some [3, 3] ∧ normalizeSeq 2 (.seq [1, 0]) = some [1, 0] ∧
+    normalizeSeq 2 (.seq [(1 : Nat)]) = none ∧ normalizeSeq (α := Nat) 0 (.seq []) = some [] := by decide
+
+/-- **C06-T5b (`laplacian_2D` is exact on quadratics).** `laplacian_2D(array, alpha)` is `convolve(array as double,
+laplacianWeightsG alpha, mode='nearest')` (the driver's `kind=laplacian`). Over any field, for every `alpha` with
+`alpha + 1 ≠ 0` and every 2-D image that is a quadratic polynomial of the pixel coordinates,
+`f[y, x] = a·y² + b·x² + c·x·y + d·y + e·x + g`, the generic kernel with these nine weights returns at every interior
+pixel exactly `2a + 2b` — the true Laplacian `f_yy + f_xx`, independently of `alpha` (the diagonal and axial second
+differences are mixed with weights that always add up to one) — in particular 0 on every affine image. -/
+theorem C06_laplacian_quadratic {K : Type} [Field K] (alpha : K) (ha : alpha + 1 ≠ 0) (isZero : K → Bool)
+    (hz : ∀ x, isZero x = true → x = 0) (f : Img K) (N0 N1 : Nat) (hf : f.shape = [N0, N1])
+    (a b c d e g : K)
+    (hq : ∀ y x : Int, 0 ≤ y → y < N0 → 0 ≤ x → x < N1 →
+      f.getD [y, x] 0 = a * (y : K) * (y : K) + b * (x : K) * (x : K) + c * (x : K) * (y : K) + d * (y : K) + e * (x : K) + g)
+    (y x : Int) (hy0 : 1 ≤ y) (hy1 : y + 1 < N0) (hx0 : 1 ≤ x) (hx1 : x + 1 < N1) :
+    convAcc .nearest f (support isZero [3, 3] (laplacianWeightsG (Nat.cast : Nat → K) alpha)) [y, x] = 2 * a + 2 * b := by
+  have hs : ∀ d ∈ f.shape, 0 < d := by
+    rw [hf]; intro d hd
+    simp only [List.mem_cons, List.not_mem_nil, or_false] at hd
+    rcases hd with rfl | rfl <;> omega
+  rw [C06_convolve_eq_spec isZero hz .nearest f hs, convSpec33_interior f N0 N1 hf _ y x ⟨hy0, hy1⟩ ⟨hx0, hx1⟩]
+  rw [hq (y - 1) (x - 1) (by omega) (by omega) (by omega) (by omega),
+    hq (y - 1) x (by omega) (by omega) (by omega) (by omega),
+    hq (y - 1) (x + 1) (by omega) (by omega) (by omega) (by omega),
+    hq y (x - 1) (by omega) (by omega) (by omega) (by omega),
+    hq y x (by omega) (by omega) (by omega) (by omega),
+    hq y (x + 1) (by omega) (by omega) (by omega) (by omega),
+    hq (y + 1) (x - 1) (by omega) (by omega) (by omega) (by omega),
+    hq (y + 1) x (by omega) (by omega) (by omega) (by omega),
+    hq (y + 1) (x + 1) (by omega) (by omega) (by omega) (by omega)]
+  simp only [laplacianWeightsG, Array.getD, List.size_toArray, List.length_cons, List.length_nil]
+  simp
+  field_simp
+  ring
+
+/-- non-vacuity over ℚ: `f[y, x] = y² + 2x²` on 3×3, `alpha = 1/5` (the default): the centre pixel gets `2·1 + 2·2 = 6`;
+the affine image `2y + x` gets 0 there. -/
+example :
+    convAcc .nearest (⟨[3, 3], #[0, 2, 8, 1, 3, 9, 4, 6, 12]⟩ : Img ℚ)
+      (support (fun x => x == 0) [3, 3] (laplacianWeightsG (Nat.cast : Nat → ℚ) (1 / 5))) [1, 1] = 6 ∧
+    convAcc .nearest (⟨[3, 3], #[0, 1, 2, 2, 3, 4, 4, 5, 6]⟩ : Img ℚ)
+      (support (fun x => x == 0) [3, 3] (laplacianWeightsG (Nat.cast : Nat → ℚ) (1 / 5))) [1, 1] = 0 := by
+  decide +kernel
